@@ -38,7 +38,9 @@ template <typename T, typename D> struct SelectCallback<T, false, D> { using Typ
 template <typename T, typename ...Args>
 struct HasFunctionGetEvent
 {
-	template <typename C> static std::true_type test(decltype(C::getEvent(std::declval<Args>()...)) *);
+	// remove_reference: a pointer to a reference type is ill-formed, so a policy whose getEvent returns a
+	// reference (e.g. const std::string &) would not be detected and would be silently replaced by the default.
+	template <typename C> static std::true_type test(typename std::remove_reference<decltype(C::getEvent(std::declval<Args>()...))>::type *);
 	template <typename C> static std::false_type test(...);
 	
 	enum { value = !! decltype(test<T>(0))() };
@@ -61,7 +63,8 @@ template <typename T, typename Key> struct SelectGetEvent<T, Key, false> { using
 template <typename T, typename ...Args>
 struct HasFunctionCanContinueInvoking
 {
-	template <typename C> static std::true_type test(decltype(C::canContinueInvoking(std::declval<Args>()...)) *) ;
+	// remove_reference: see HasFunctionGetEvent.
+	template <typename C> static std::true_type test(typename std::remove_reference<decltype(C::canContinueInvoking(std::declval<Args>()...))>::type *) ;
 	template <typename C> static std::false_type test(...);    
 
 	enum { value = !! decltype(test<T>(0))() };
